@@ -521,7 +521,7 @@ impl Prop for C16 {
         ]
     }
     fn cases(tier: Tier) -> u32 {
-        tier.pick(6_000, 1_500_000)
+        tier.pick(12_000, 1_500_000)
     }
     fn strategy(tier: Tier) -> BoxedStrategy<Case> {
         let quick = tier == Tier::Quick;
